@@ -359,7 +359,36 @@ pub fn run(ctx: &mut Ctx) {
                             _ => l.to_string(),
                         })
                         .collect();
-                    match e.synthesize(lines) {
+                    // the lines are handed over in every form the API takes: an owned vector, a
+                    // slice of Strings or of &str, a fixed-size array — and, when nothing is
+                    // annotated, already parsed labels
+                    let refs: Vec<&str> = lines.iter().map(|s| s.as_str()).collect();
+                    let nothing_annotated = ann.iter().all(|a| a.start.is_none() && a.end.is_none());
+                    let form = (idx / 2) % 5;
+                    let rendered = match form {
+                        0 => e.synthesize(lines.clone()),
+                        1 => e.synthesize(&lines[..]),
+                        2 => e.synthesize(&refs[..]),
+                        3 => match lines.len() {
+                            1 => e.synthesize(&array_of::<1>(&lines)),
+                            2 => e.synthesize(&array_of::<2>(&lines)),
+                            3 => e.synthesize(&array_of::<3>(&lines)),
+                            4 => e.synthesize(&array_of::<4>(&lines)),
+                            5 => e.synthesize(&array_of::<5>(&lines)),
+                            6 => e.synthesize(&array_of::<6>(&lines)),
+                            7 => e.synthesize(&array_of::<7>(&lines)),
+                            _ => e.synthesize(&refs[..]),
+                        },
+                        _ => {
+                            if nothing_annotated {
+                                e.synthesize(labels.clone())
+                            } else {
+                                e.synthesize(lines.clone())
+                            }
+                        }
+                    };
+                    ctx.count(&format!("entry_form_{}", form), 1.0);
+                    match rendered {
                         Ok(w) => {
                             let total: usize = run.durations.iter().sum();
                             if w.len() != total * fperiod {
@@ -380,6 +409,11 @@ pub fn run(ctx: &mut Ctx) {
             }
         }
     });
+}
+
+/// the first N lines as a fixed-size array (N == lines.len())
+fn array_of<const N: usize>(lines: &[String]) -> [String; N] {
+    std::array::from_fn(|i| lines[i].clone())
 }
 
 fn estimator_case(ctx: &mut Ctx, ann: &[Ann], params: &[MeanVari], nstate: usize, rate: usize, fperiod: usize, tag: &str) {
